@@ -472,7 +472,7 @@ class Ctx(object):
     def replay(self, ob, r):
         """re-run the solver's input against the real code built by gcc (or
         clang+ASan for memory safety) through the same harness source"""
-        rdir = os.path.join('/tmp/verif-evidence-scratch' if os.environ.get('VERIF_NO_EVIDENCE') else
+        rdir = os.path.join('/tmp/verif-evidence-scratch' if (os.environ.get('VERIF_NO_EVIDENCE') or os.environ.get('VERIF_ONLY')) else
                             os.path.join(VERIF, 'evidence'), 'replay', self.prop)
         os.makedirs(rdir, exist_ok=True)
         tag = re.sub(r'[^\w.-]', '_', ob.name)[:80]
@@ -794,7 +794,8 @@ def write_evidence(ctx, obs, level_note, assumptions, stubs, rule, pre_info, ext
         'violations': violations,
     }
     evdir = os.path.join(VERIF, 'evidence')
-    if os.environ.get('VERIF_NO_EVIDENCE'):
+    if os.environ.get('VERIF_NO_EVIDENCE') or os.environ.get('VERIF_ONLY'):
+        # partial / experimental runs never overwrite the evidence of record
         evdir = os.path.join('/tmp', 'verif-evidence-scratch')
     os.makedirs(evdir, exist_ok=True)
     p = os.path.join(evdir, ctx.prop + '.json')
